@@ -15,7 +15,7 @@ struct Pat {
     chunk: u16,
 }
 
-const KINDS: [&str; 14] = [
+const KINDS: [&str; 15] = [
     "sorted-append",
     "front-insertion",
     "middle-insertion",
@@ -30,6 +30,7 @@ const KINDS: [&str; 14] = [
     "every-k-th-created-node-of-one-thread",
     "nodes-created-while-the-thread-is-winding-down",
     "thread-that-has-created-2^28-nodes",
+    "2^20-treaps-grown-in-lock-step",
 ];
 
 /// strides at which a low-discrepancy / arithmetic-progression priority sequence lines up with itself: Fibonacci and Lucas numbers,
@@ -97,7 +98,7 @@ fn run_pat_inner(pat: &Pat) -> CaseResult {
     st.size = n as u64;
     let mut rng = SplitMix(pat.seed as u64 ^ 0xC16);
     let mut t: Treap<Lt> = Treap::new();
-    let kind = pat.kind % 14;
+    let kind = pat.kind % 15;
     st.label(KINDS[kind as usize]);
     // intermediate checkpoints at 10^k so that a degenerate tree is reported at a small size
     let mut next_cp = 100usize;
@@ -312,6 +313,38 @@ fn run_pat_inner(pat: &Pat) -> CaseResult {
             }
             checkpoint(&last, m, pat, "treap K-1 of K grown in lock step", true)?;
         }
+        14 => {
+            // 2^20 treaps grown in lock step on one thread (one append per treap and round): treap j receives the created nodes j,
+            // j + 2^20, j + 2*2^20, ... Only a block of 64 of them, starting at `n mod 2^20`, is kept (all of them would need tens of
+            // gigabytes); `chunk` = number of rounds. Run only when asked for explicitly (chunk >= 400).
+            let rounds = pat.chunk as usize;
+            if rounds < 400 {
+                st.label("lock-step-2^20-skipped");
+                return Ok(st);
+            }
+            let rounds = rounds.min(1500);
+            const STRIDE: usize = 1 << 20;
+            let start = n % STRIDE;
+            let block = 64usize.min(STRIDE - start);
+            let mut kept: Vec<Treap<Lt>> = (0..block).map(|_| Treap::new()).collect();
+            for r in 0..rounds {
+                for j in 0..STRIDE {
+                    if j >= start && j < start + block {
+                        let node = Treap::from_item(Lt::new(r as u32));
+                        let cur = std::mem::replace(&mut kept[j - start], Treap::new());
+                        kept[j - start] = Treap::merge(cur, node);
+                    } else {
+                        std::hint::black_box(rlib_treap::TreapNode::new(Lt::new(0)).priority);
+                    }
+                }
+            }
+            for (i, tr) in kept.iter().enumerate() {
+                checkpoint(tr, rounds, pat, &format!("treap {} of 2^20 grown in lock step", start + i), true)?;
+            }
+            t = kept.pop().unwrap();
+            len = rounds;
+            st.label("2^20-treaps-grown-in-lock-step");
+        }
         13 => {
             // a very long-lived thread: 2^28 + 2^22 node creations (nearly all dropped at once). Kept: every 2^21-th created node
             // (appended to one treap: creation indices congruent modulo a large power of two) and, in a second treap, 3000
@@ -393,7 +426,7 @@ fn run_pat_inner(pat: &Pat) -> CaseResult {
             }
         }
     }
-    let sh = checkpoint(&t, len, pat, "end", matches!(kind, 0 | 1 | 6 | 8 | 9 | 11 | 12 | 13))?;
+    let sh = checkpoint(&t, len, pat, "end", matches!(kind, 0 | 1 | 6 | 8 | 9 | 11 | 12 | 13 | 14))?;
     let _ = maxh.max(sh.height);
     if len >= 1000 {
         st.nontrivial = true;
@@ -412,7 +445,7 @@ fn real_main() {
     ctx.rule(
         "A case is an adversarial construction pattern (sorted appends, repeated front insertion, middle insertion, alternating ends, \
          split-and-swap rotations, remove/re-insert churn, concatenation of small treaps, random mix, ascending ordered insertion via \
-         split_by, chunks built on 2..n worker threads and merged, single nodes built on thousands of worker threads and merged column by column / in alternating direction / with a worker stride, every K-th created node of one thread for generated K and for Fibonacci / Lucas / power-of-two strides, a treap built while its thread winds down, a thread that has already created 2^28 nodes) with generated size, seed offset of the library's priority stream and chunk parameter, priorities drawn by the \
+         split_by, chunks built on 2..n worker threads and merged, single nodes built on thousands of worker threads and merged column by column / in alternating direction / with a worker stride, every K-th created node of one thread for generated K and for Fibonacci / Lucas / power-of-two strides, a treap built while its thread winds down, a thread that has already created 2^28 nodes, 2^20 treaps grown in lock step of which a block of 64 is kept) with generated size, seed offset of the library's priority stream and chunk parameter, priorities drawn by the \
          library. Oracle at 10^k checkpoints and at the end, from an iterative read-only walk over the public node fields: priorities heap-ordered on every edge in one direction for the whole tree (ties allowed), height <= \
          5*log2(n+1)+20. The C03-style small histories with library priorities add heap checks after every operation. Non-trivial = a \
          pattern instance with n >= 1000 (sizes staged 10^2..10^5 quick, ..10^6 thorough). Distinct = distinct pattern parameters.",
@@ -475,6 +508,14 @@ fn real_main() {
         if !cfg!(debug_assertions) || ctx.thorough() {
             // (the quick tier runs this one in the release build only: 2.7 * 10^8 creations)
             ctx.exhaustive("thread-that-has-created-2^28-nodes", "treap-pattern", "2^28 + 2^22 creations on one thread; kept: every 2^21-th created node, and 3000 consecutive nodes created after the 2^28-th", false, vec![Pat { kind: 13, n: 1 << 28, seed: 9, chunk: 0 }], run_pat);
+        }
+        if !cfg!(debug_assertions) || ctx.thorough() {
+            let mut r = ctx.sub_rng("lock-step");
+            let mut ls = vec![Pat { kind: 14, n: 89_600, seed: 42, chunk: 800 }];
+            for _ in 0..ctx.n(1, 6) {
+                ls.push(Pat { kind: 14, n: (r.next() % (1 << 20)) as u32, seed: r.next() as u32, chunk: 800 });
+            }
+            ctx.exhaustive("2^20-treaps-in-lock-step", "treap-pattern", "2^20 treaps grown in lock step on one thread, 800 rounds; a block of 64 neighbouring treaps kept (one fixed block, generated ones)", false, ls, run_pat);
         }
         let exits = vec![Pat { kind: 12, n: 2000, seed: 1, chunk: 0 }, Pat { kind: 12, n: 2000, seed: 2, chunk: 1 }, Pat { kind: 12, n: 300, seed: 3, chunk: 1 }];
         ctx.exhaustive("nodes-created-at-thread-exit", "treap-pattern", "a treap built from the destructor of another thread-local while the thread winds down (priority source used before / never used before)", false, exits, run_pat);
